@@ -176,7 +176,7 @@ def mean_backward(grad:np.ndarray, a_shape:tuple, axis:'None| int | tuple', keep
         grad = unsqueeze_forward(grad, axis)
     
     if axis is None: axis = range(len(a_shape))
-    if isinstance(axis, int): axis = [axis]
+    if isinstance(axis, (int, np.integer)): axis = [axis]
     axis = [len(a_shape) + ax if ax < 0 else ax for ax in axis]
     n_samples = np.prod([a_shape[i] for i in range(len(a_shape)) if i in axis])
 
